@@ -131,6 +131,46 @@ Theorem C07_full_path_roundtrip :
 Proof. exact full_path_roundtrip. Qed.
 Print Assumptions C07_full_path_roundtrip.
 
+(* ---- histories: the buffer pool of c2/vars.go as state ------------------------------------------- *)
+(* after ANY sequence of writePacket calls and of readPacket calls on ARBITRARY input (cut streams,
+   garbage, nothing), whichever pooled buffers sync.Pool hands out, every buffer in the pool is empty:
+   every return path of the two functions gives its buffers back cleared *)
+Theorem C07_pool_invariant :
+  forall (packet : Type) (marshal : packet -> list Z) (unmarshal : list Z -> res packet) ws t
+         (h : list (event packet)) p,
+  pool_inv p -> pool_inv (run packet marshal unmarshal ws t h p).
+Proof. exact pool_invariant. Qed.
+Print Assumptions C07_pool_invariant.
+
+(* hence a packet sent after any such history is read back identically *)
+Theorem C07_history_roundtrip :
+  forall (zlib_enc gzip_enc : list Z -> list Z) (zlib_dec gzip_dec : list Z -> res (list Z)),
+  lossless {| w_enc := zlib_enc; w_dec := zlib_dec |} ->
+  lossless {| w_enc := gzip_enc; w_dec := gzip_dec |} ->
+  forall aes : list Z -> list Z -> list Z, (forall key, block_fn_bytes (aes key)) ->
+  forall (packet : Type) (marshal : packet -> list Z) (unmarshal : list Z -> res packet),
+  (forall p, bytes (marshal p)) -> (forall p, unmarshal (marshal p) = Ok p) ->
+  forall es t (h : list (event packet)), Forall welem_ok es ->
+  forall enc, (forall x, tr_sends t x (enc x)) ->
+  forall pick pick1 pick2 n,
+  let ws := map (welem_w zlib_enc gzip_enc zlib_dec gzip_dec aes) es in
+  let p := run packet marshal unmarshal ws t h [] in
+  let sent := write_packet packet marshal ws t enc pick p n in
+  snd sent <> [] ->
+  snd (read_packet packet unmarshal ws t true pick1 pick2 (fst sent) (snd sent)) = Ok n.
+Proof. exact history_roundtrip. Qed.
+Print Assumptions C07_history_roundtrip.
+
+(* the clearing is what the property rests on: with the transform's error path putting its output
+   buffer back uncleared, [DNS stream cut after a complete record; ordinary round trip] fails *)
+Theorem C07_uncleared_put_refuted :
+  let '(p1, st1, _) := nc_read [] nc_cut in
+  st1 = RTransform /\ pool_clean p1 = false /\
+  let '(p2, w) := write_packet (list Z) (fun p => p) [] (TDns false nc_dom) (tr_enc0 (TDns false nc_dom)) 0 p1 [1; 2; 3] in
+  snd (nc_read p2 w) <> Ok [1; 2; 3].
+Proof. exact unclear_put_breaks_later_roundtrip. Qed.
+Print Assumptions C07_uncleared_put_refuted.
+
 (* ---- non-vacuity: a concrete stack hex / XOR(3-byte key) / CBK-16 / base64 with overlapping step
         pairs (|g-h| = 1), a 21-byte payload (42 bytes at the CBK layer: two full blocks and a
         partial one), the DNS transform with a trailing-dot domain: the hypotheses hold, the wire is
